@@ -325,17 +325,16 @@ def backoff_table():
     import skepticoin.networking.params as P
     bad = []
     n = 0
-    if (P.TIME_TO_SECOND_CONNECTION_ATTEMPT, P.MAX_TIME_BETWEEN_CONNECTION_ATTEMPTS, P.MAX_CONNECTION_ATTEMPTS) != (10, 1800, 2880) \
-            or rp.MAX_CONNECTION_ATTEMPTS != 2880:
-        bad.append(('backoff-constants', "back-off constants are not 10 s / 30 min / 2880 attempts", None))
-    for k in range(0, 2883):
+    # 10 s and 30 min are stated by the property; the give-up count is "configured": read it from the tree
+    GU = rp.MAX_CONNECTION_ATTEMPTS           # (the value is_time_to_connect uses: 2880 unless the seam is installed)
+    for k in range(0, GU + 3):
         thr = min(10 * 2 ** k, 1800)
         for last in (None, 5000):
             for el in (thr - 1, thr, thr + 1, 0, 10**9):
                 n += 1
                 p = DisconnectedRemotePeer('1.1.1.1', 1, 'OUTGOING', last, k)
                 got = p.is_time_to_connect((last or 0) + el)
-                exp = (k <= 2880) and (last is None or el >= thr)
+                exp = (k <= GU) and (last is None or el >= thr)
                 if got != exp and len(bad) < 5:
                     bad.append(('backoff-formula', "is_time_to_connect with %d failures, %s s after the last attempt = %s" % (k, el, got),
                                 (k, last, el)))
